@@ -81,7 +81,8 @@ func c17Ambr(c *core.Ctx, k *core.Case) {
 			// the other direction carries a different value and unit, so a swap would show
 			ov, ou := (v*31+7)&0xffff, ambrUnits[(ui+2)%5]
 			for dir := 0; dir < 2; dir++ {
-				a := &models.Ambr{Uplink: fmt.Sprintf("%d %s", v, unit), Downlink: fmt.Sprintf("%d %s", ov, ou)}
+				// the numeric part is a decimal digit string; zero padding is legal (TS 29.571 BitRate: ^\d+...)
+				a := &models.Ambr{Uplink: fmt.Sprintf([]string{"%d %s", "%05d %s", "%d %s", "%07d %s"}[(v+dir)&3], v, unit), Downlink: fmt.Sprintf([]string{"%d %s", "%d %s", "%06d %s"}[(v+ui)%3], ov, ou)}
 				if dir == 1 {
 					a.Uplink, a.Downlink = a.Downlink, a.Uplink
 				}
